@@ -202,6 +202,46 @@ def delete_sites(ck, rb):
               "_expire_oldest_from_group must take the head of the group's queue, pop its record and remove it from the queue", {})
 
 
+def event_wiring(ck, rb):
+    """event handlers against the contracts of the record operations (modular): created -> add, deleted -> remove, modified -> modify,
+    moved -> remove the source THEN add the destination (the moved file must not be counted twice while the limits are evaluated);
+    batch calls handle every valid path once, oldest first, and skip paths that yield no record."""
+    import types
+    H = rb.DigitalRFRingbufferHandlerBase
+    for nm in ("on_created", "on_deleted", "on_modified", "on_moved", "add_files", "modify_files", "remove_files"):
+        ck.add_function(pyload.source_info(rb, "DigitalRFRingbufferHandlerBase." + nm))
+
+    def mk():
+        trace = []
+        recs = {"/w/ch/s/rf@3.000.h5": (3, "r3"), "/w/ch/s/rf@1.000.h5": (1, "r1"), "/w/ch/s/rf@2.000.h5": (2, "r2"), "/w/ch/s/gone@9.000.h5": None}
+        self_ = types.SimpleNamespace(_get_file_record=lambda p: recs.get(p),
+                                      _add_record=lambda r: trace.append(("add", r)), _modify_record=lambda r: trace.append(("modify", r)),
+                                      _remove_record=lambda p: trace.append(("remove", p)))
+        for nm in ("add_files", "modify_files", "remove_files"):
+            setattr(self_, nm, types.MethodType(getattr(H, nm), self_))
+        return self_, trace
+    ev = lambda src, dest=None: types.SimpleNamespace(src_path=src, dest_path=dest)
+    a, b, c, g = "/w/ch/s/rf@1.000.h5", "/w/ch/s/rf@2.000.h5", "/w/ch/s/rf@3.000.h5", "/w/ch/s/gone@9.000.h5"
+    cases = [
+        ("on_created", lambda s: H.on_created(s, ev(a)), [("add", (1, "r1"))]),
+        ("on_deleted", lambda s: H.on_deleted(s, ev(a)), [("remove", a)]),
+        ("on_modified", lambda s: H.on_modified(s, ev(a)), [("modify", (1, "r1"))]),
+        ("on_moved", lambda s: H.on_moved(s, ev(a, b)), [("remove", a), ("add", (2, "r2"))]),
+        ("on_created(vanished)", lambda s: H.on_created(s, ev(g)), []),
+        ("add_files", lambda s: H.add_files(s, [c, g, a, b]), [("add", (1, "r1")), ("add", (2, "r2")), ("add", (3, "r3"))]),
+        ("modify_files", lambda s: H.modify_files(s, [c, a]), [("modify", (1, "r1")), ("modify", (3, "r3"))]),
+        ("remove_files", lambda s: H.remove_files(s, [c, a]), [("remove", c), ("remove", a)]),
+    ]
+    for name, run, want in cases:
+        self_, trace = mk()
+        try:
+            run(self_)
+            got = list(trace)
+        except Exception as e:
+            got = "raised %r" % (e,)
+        ck.struct("ring.events.%s" % name.split("(")[0], got == want, "%s: record operations %s, contract %s" % (name, got, want), {"attr": name, "no_input": False})
+
+
 def run(tier, seed, replay=None):
     ck = harness.Check("C16", tier, seed, level="other")
     rb = pyload.module("ringbuffer")
@@ -261,6 +301,7 @@ def run(tier, seed, replay=None):
                     post(ck, op, limits, shape, p, g, dup, oc, tag)
                 ck.add(pysym.obligations_of(outs, "ringbuffer." + op))
     delete_sites(ck, rb)
+    event_wiring(ck, rb)
     for nm in ("DigitalRFRingbufferHandlerBase._add_to_queue", "DigitalRFRingbufferHandlerBase._remove_from_queue",
                "DigitalRFRingbufferHandlerBase._expire_oldest_from_group", "DigitalRFRingbufferHandlerBase._add_record",
                "DigitalRFRingbufferHandlerBase._modify_record", "DigitalRFRingbufferHandlerBase._remove_record",
